@@ -33,8 +33,18 @@ import (
 // ---- the fixed family of recursive node types ----
 
 // SN: references held in slice elements, map values and array elements.
+// TUNode implements encoding.TextUnmarshaler and holds references: replaced as a whole by
+// overlay, but copied deeply like any other struct.
+type TUNode struct {
+	Kids []*SN
+	M    map[string]*SN
+}
+
+func (t *TUNode) UnmarshalText(b []byte) error { return nil }
+
 type SN struct {
 	Name string
+	TU   TUNode
 	MM   map[string]map[string]*SN // map of maps: the inner maps are referenced again by the M / Ms fields visited later
 	Kids []*SN
 	M    map[string]*SN
@@ -204,6 +214,84 @@ func rangesOverlap(a, b []memRange) bool {
 		}
 	}
 	return false
+}
+
+// buildBig builds a LONG chain or a big ring (n nodes) through plain pointers (PN.Next),
+// through slice elements (SN.Kids[0]) or through map values (SN.M["n"]).
+func buildBig(in input) reflect.Value {
+	r := coqfmt.NewRng(in.State)
+	ring := r.Chance(1, 2)
+	switch in.Fam {
+	case "PN":
+		nodes := make([]*PN, in.N)
+		for i := range nodes {
+			nodes[i] = &PN{Val: i}
+		}
+		for i := 0; i+1 < in.N; i++ {
+			nodes[i].Next = nodes[i+1]
+			if i%7 == 0 {
+				nodes[i].Other = nodes[r.Intn(in.N)]
+			}
+		}
+		if ring {
+			nodes[in.N-1].Next = nodes[0]
+		}
+		return reflect.ValueOf(nodes[0])
+	default:
+		nodes := make([]*SN, in.N)
+		for i := range nodes {
+			nodes[i] = &SN{Name: fmt.Sprint(i)}
+		}
+		link := func(a, b *SN) {
+			if in.Fam == "SNslice" {
+				a.Kids = []*SN{b}
+			} else {
+				a.M = map[string]*SN{"n": b}
+			}
+		}
+		for i := 0; i+1 < in.N; i++ {
+			link(nodes[i], nodes[i+1])
+		}
+		if ring {
+			link(nodes[in.N-1], nodes[0])
+		}
+		return reflect.ValueOf(nodes[0])
+	}
+}
+
+// exploreBig runs one long-chain / big-ring case against the implementation alone
+// (600-3000 nodes: the Coq model is not evaluated on these).
+func exploreBig(in input) (direct, tags []string) {
+	root := buildBig(in)
+	tags = []string{"big-chain-or-ring", "big-" + in.Fam, fmt.Sprintf("mode-%d", in.Mode)}
+	before := graphwalk.Canon(root)
+	res, err := runImpl(in, root)
+	if err != nil {
+		return []string{"big graph: Config returned an error: " + err.Error()}, tags
+	}
+	if !reflect.DeepEqual(root.Interface(), res.Interface()) {
+		direct = append(direct, "big graph: reflect.DeepEqual(input, copy) = false")
+	}
+	var rin, rout []memRange
+	memRanges(root, map[[2]uintptr]bool{}, &rin)
+	memRanges(res, map[[2]uintptr]bool{}, &rout)
+	inSet := map[uintptr]bool{}
+	for _, x := range rin {
+		inSet[x.lo] = true
+	}
+	for _, y := range rout {
+		if inSet[y.lo] {
+			direct = append(direct, "big graph: the copy shares memory with the input (the tail of a long chain is not copied)")
+			break
+		}
+	}
+	if graphwalk.Canon(res) != before {
+		direct = append(direct, "big graph: the copy is not isomorphic to the input (contents or alias partition differ)")
+	}
+	if graphwalk.Canon(root) != before {
+		direct = append(direct, "big graph: the input was modified")
+	}
+	return direct, tags
 }
 
 // exploreInterior runs one interior-pointer case against the implementation alone.
@@ -377,6 +465,12 @@ func buildSN(g *gen, n int) []*SN {
 		}
 		if r.Chance(1, 3) {
 			nd.Box = [1][2]*SN{{pick(i), pick(i)}}
+		}
+		if r.Chance(1, 3) {
+			nd.TU = TUNode{Kids: []*SN{pick(i), pick(i)}, M: poolMap()}
+			if r.Chance(1, 2) && len(nd.Kids) > 0 {
+				nd.TU.Kids = nd.Kids[:1] // shares the node's own backing array
+			}
 		}
 		if r.Chance(1, 4) {
 			nd.Rows = [2][]*SN{{pick(i)}, nil}
@@ -794,13 +888,17 @@ func child() {
 		if e := json.Unmarshal([]byte(line), &in); e != nil {
 			panic(e)
 		}
-		if in.K == "interior" {
+		if in.K == "interior" || in.K == "big" {
 			b, _ := json.Marshal(announce{Explore: true})
 			fmt.Fprintf(out, "I %s\n", b)
 			out.Flush()
 			var oc outcome
 			var tg []string
-			oc.Direct, tg = exploreInterior(in)
+			if in.K == "big" {
+				oc.Direct, tg = exploreBig(in)
+			} else {
+				oc.Direct, tg = exploreInterior(in)
+			}
 			oc.Heap = tg // (tags travel in the heap slot of the outcome for exploration cases)
 			b, _ = json.Marshal(oc)
 			fmt.Fprintf(out, "O %s\n", b)
@@ -952,12 +1050,12 @@ func run(raw json.RawMessage) driver.Result {
 	}
 	if a.Explore {
 		l, ok = cur.read(60 * time.Second)
-		res := driver.Result{Coq: "Explore", Kind: "interior-exploration"}
+		res := driver.Result{Coq: "Explore", Kind: in.K + "-exploration"}
 		if !ok || !strings.HasPrefix(l, "O ") {
 			cur.kill()
 			cur = nil
-			res.Direct = []string{"exploration (interior pointers): the implementation did not terminate (child process died or hung)"}
-			res.Tags = []string{"interior-exploration", "impl-crashed"}
+			res.Direct = []string{"exploration (" + in.K + "): the implementation did not terminate (child process died or hung)"}
+			res.Tags = []string{in.K + "-exploration", "impl-crashed"}
 			return res
 		}
 		var oc outcome
@@ -1007,6 +1105,19 @@ func genInputs(r *coqfmt.Rng, n int, tier string) []json.RawMessage {
 	// Config on a type that reaches itself through pointer-to-struct fields (finding 15): a few per run
 	for i := 0; i < 3; i++ {
 		add(input{K: "gen", State: r.U64(), Fam: "PN", N: 1 + r.Intn(3), PNil: 8 * (i % 2), Mode: 1})
+	}
+	// long chains and big rings (600-3000 nodes), implementation-only oracles: a few per run
+	nbig := 6
+	if tier == "thorough" {
+		nbig = 60
+	}
+	for i := 0; i < nbig; i++ {
+		fam := []string{"PN", "SNslice", "SNmap"}[i%3]
+		mode := 0
+		if fam != "PN" && i%2 == 1 {
+			mode = 1
+		}
+		add(input{K: "big", State: r.U64(), Fam: fam, N: 600 + r.Intn(2400), Mode: mode})
 	}
 	for i := 0; i < n/25; i++ {
 		add(input{K: "interior", State: r.U64(), Fam: "IP", N: 1 + r.Intn(4), Mode: r.Intn(2)})
